@@ -463,6 +463,12 @@ def _container_evidence(fnode):
             for c in n.comparators:
                 if isinstance(c, ast.Name):
                     ev.add(c.id)
+        if isinstance(n, ast.Subscript):
+            # a name used as (part of) an index expression of a table -- `arr[mask, "log2"]`, `df[m1 | m2]` -- is a mask / index array
+            for m in ast.walk(n.slice):
+                if isinstance(m, ast.Name) and not (isinstance(n.slice, ast.Name) and False):
+                    if isinstance(n.slice, (ast.Tuple, ast.BinOp, ast.UnaryOp)) or (isinstance(n.slice, ast.Name) and False):
+                        ev.add(m.id)
     return ev
 
 
